@@ -354,7 +354,9 @@ def judgeUnit (cmd : List String) (out : List String) : List String :=
       let tsNull := f.getD 12 0 == 0
       let ok := (List.range 13).all (fun i =>
         let want :=
-          if i ≥ 11 && tsNull then (if f.getD i 0 == 0 then "null" else "wild")
+          -- a NULL `inherit` (no inherits) stays NULL; without save_types the two type members are left alone
+          if i == 8 && f.getD i 0 == 0 then "null"
+          else if i ≥ 11 && tsNull then (if f.getD i 0 == 0 then "null" else "wild")
           else if f.getD i 0 == 0 then "wild" else toString (f.getD i 0)
         got.getD i "" == want)
       if ok then [] else [s!"reloc-offsets-not-preserved got={r}"]
